@@ -69,6 +69,17 @@ func checkC19(c *Ctx) error {
 		return err
 	}
 	sort.Strings(texts)
+	// the passes that index into the regex text guided by pattern matches (the anchor of this
+	// property), as a character-level transcription: never out of range on well-formed text,
+	// the unbounded loop terminates (MC_Cleanup: NoCrash, Terminates), and the real passes agree
+	// with the transcription byte for byte, crash for crash, on every enumerated text
+	cleanLen := "4"
+	if c.Tier == "thorough" {
+		cleanLen = "5"
+	}
+	if _, err := cleanupConformance(c, cleanLen); err != nil {
+		return err
+	}
 	root, err := c.newSandbox("fuzz")
 	if err != nil {
 		return err
@@ -138,7 +149,7 @@ func checkC19(c *Ctx) error {
 	c.Cov["cli_executions"] = cli
 	c.Cov["outcome_classes"] = classes
 	c.Cov["exhaustive"] = false
-	c.Cov["rule"] = fmt.Sprintf("texts are token sequences generated by TLC from MC_Fuzz (82 tokens: directive fragments, metacharacters, escapes incl. the escaped-parenthesis-flag family and \\Q quoting that ends in an open bracket, braces, quotes, NUL/control/non-ASCII/invalid UTF-8 bytes): all sequences of <= %d tokens (1/%d sampled) plus random sequences up to %d tokens; each text goes to `generate -` and every 4th also into an include file; allowed: exit 0, exit 1, or exit 2 with a deliberate panic message; a runtime error, a Go fatal error, a signal or no termination within 10 s is a violation; non-trivial = text of at least 2 bytes, distinct by text", exLen, keepMod, simDepth)
+	c.Cov["rule"] = "design level: MC_Cleanup proves NoCrash and Terminates for the character-level transcription of the clean-up passes on all texts up to the bound over 10 characters, and the real passes are compared with it on each of them; " + fmt.Sprintf("texts are token sequences generated by TLC from MC_Fuzz (82 tokens: directive fragments, metacharacters, escapes incl. the escaped-parenthesis-flag family and \\Q quoting that ends in an open bracket, braces, quotes, NUL/control/non-ASCII/invalid UTF-8 bytes): all sequences of <= %d tokens (1/%d sampled) plus random sequences up to %d tokens; each text goes to `generate -` and every 4th also into an include file; allowed: exit 0, exit 1, or exit 2 with a deliberate panic message; a runtime error, a Go fatal error, a signal or no termination within 10 s is a violation; non-trivial = text of at least 2 bytes, distinct by text", exLen, keepMod, simDepth)
 	c.Summary = fmt.Sprintf("texts=%d cli=%d classes=%v", len(texts), cli, classes)
 	return nil
 }
